@@ -102,8 +102,14 @@ theorem natDigits_shape (n : Nat) : ∃ c tl, natDigits n = c :: tl ∧ Machine.
 
 omit hext in
 /-- what may follow a value: a separator or closing bracket of the enclosing container, the closing quote of a map key
-    holding a number (`MapKey`'s numeric methods), or nothing (top level) -/
-def SepOK (rest : Bytes) : Prop := rest = [] ∨ ∃ c tl, rest = c :: tl ∧ (c = 0x2c ∨ c = 0x5d ∨ c = 0x7d ∨ c = 0x22)
+    holding a number (`MapKey`'s numeric methods), JSON whitespace (the pretty printer's line break before `]` / `}`), or
+    nothing (top level) -/
+def SepOK (rest : Bytes) : Prop :=
+  rest = [] ∨ ∃ c tl, rest = c :: tl ∧ (c = 0x2c ∨ c = 0x5d ∨ c = 0x7d ∨ c = 0x22 ∨ Machine.isWs c = true)
+
+omit hext in
+theorem isWs_cases {c : UInt8} (h : Machine.isWs c = true) : c = 0x20 ∨ c = 0x0a ∨ c = 0x09 ∨ c = 0x0d := by
+  simpa [Machine.isWs, Gen.wsBytes] using h
 
 omit hext in
 theorem skipWs_cons {c : UInt8} (hc : Machine.isWs c = false) (tl : Bytes) (pos : Nat) : skipWs (c :: tl) pos = (c :: tl, pos) := by
@@ -161,11 +167,13 @@ theorem sep_facts {rest : Bytes} (h : SepOK rest) :
     (rest = [] ∨ ∃ c tl, rest = c :: tl ∧ (c == 0x2e) = false ∧ (c == 0x65 || c == 0x45) = false) := by
   rcases h with rfl | ⟨c, tl, rfl, hc⟩
   · exact ⟨.inl rfl, .inl rfl⟩
-  · rcases hc with rfl | rfl | rfl | rfl
+  · rcases hc with rfl | rfl | rfl | rfl | hw
     · exact ⟨.inr ⟨_, _, rfl, by decide⟩, .inr ⟨_, _, rfl, by decide, by decide⟩⟩
     · exact ⟨.inr ⟨_, _, rfl, by decide⟩, .inr ⟨_, _, rfl, by decide, by decide⟩⟩
     · exact ⟨.inr ⟨_, _, rfl, by decide⟩, .inr ⟨_, _, rfl, by decide, by decide⟩⟩
     · exact ⟨.inr ⟨_, _, rfl, by decide⟩, .inr ⟨_, _, rfl, by decide, by decide⟩⟩
+    · rcases isWs_cases hw with rfl | rfl | rfl | rfl <;>
+        exact ⟨.inr ⟨_, _, rfl, by decide⟩, .inr ⟨_, _, rfl, by decide, by decide⟩⟩
 
 section
 variable {env : Env} (hflt : env.flt = false)
@@ -287,8 +295,11 @@ theorem shapeWm_of_shapeOKm (c : Spec.Canon.Cfg) (hc : c.ap = false) : ∀ kvs :
     exact ⟨⟨h.1.1, shapeW_of_shapeOK c hc x h.1.2⟩, shapeWm_of_shapeOKm c hc kvs h.2⟩
 end
 
-/-- the values of the staged claim: representable without `arbitrary_precision`, no floats -/
-def VOK (v : JV) : Prop := shapeW v = true ∧ Spec.WF.noFloat v = true
+/-- the values of the claim: representable without `arbitrary_precision` (integers of any size, finite floats, no literal),
+    strings and keys valid UTF-8. What the text leg needs about the FLOATS of a value (`ryu`'s text is read back as the
+    float: `Spec.WF.floatsRT`) is a separate hypothesis of the lemmas that read a number (`agree_int`, `agree_f64`,
+    `agree_bytes`, `agree_any`). -/
+def VOK (v : JV) : Prop := shapeW v = true
 
 /-- a typed parser `de` on the text `txt` (followed by a separator) against the verdict `fv` of the `Value` side -/
 def Agree1 (de : Bytes → Nat → TOut) (fv : FromValue.R) (txt : Bytes) : Prop := ∀ rest pos, SepOK rest →
@@ -304,10 +315,49 @@ def HeadOf (v : JV) (c : UInt8) : Prop :=
   | .bool false => c = 0x66
   | .num (.pos _) => Machine.isDigit c = true
   | .num (.neg _) => c = 0x2d
+  | .num (.float _) => isNumStart c = true
   | .str _ => c = 0x22
   | .arr _ => c = 0x5b
   | .obj _ => c = 0x7b
   | _ => False
+
+omit hext in
+/-- a finite float is printed by `ryu` -/
+theorem T_float (b : UInt64) (hb : Spec.Program.finite64 b = true) : T ext (.num (.float b)) = ext.ryu64 b := by
+  simp only [T, render, imageOfValue, hb, if_true, Spec.Image.numOf, layoutWith]
+  rw [SJ.Proofs.Number.splitNumber_bytes]
+
+omit hext in
+/-- an RFC 8259 number starts with `-` or a digit -/
+theorem isNumber_head (bs : Bytes) (h : Spec.Grammar.IsNumber bs) : ∃ c tl, bs = c :: tl ∧ isNumStart c = true := by
+  obtain ⟨p, hp, rfl⟩ := h
+  simp only [Spec.Grammar.NumParts.WF, Bool.and_eq_true] at hp
+  have hi := hp.1.1
+  cases hm : p.minus with
+  | true => exact ⟨0x2d, p.int ++ p.frac ++ p.exp, by simp [Spec.Grammar.NumParts.bytes, hm], by decide⟩
+  | false =>
+    cases hint : p.int with
+    | nil => rw [hint] at hi; simp [Spec.Grammar.isInt] at hi
+    | cons d ds =>
+      refine ⟨d, ds ++ p.frac ++ p.exp, by simp [Spec.Grammar.NumParts.bytes, hm, hint], ?_⟩
+      rw [hint] at hi
+      have hd : Machine.isDigit d = true := by
+        cases ds with
+        | nil =>
+          have : Spec.Grammar.isDigit d = true := by simpa [Spec.Grammar.isInt] using hi
+          exact this
+        | cons e es =>
+          simp only [Spec.Grammar.isInt, Bool.and_eq_true] at hi
+          have h19 := hi.1
+          simp only [Spec.Grammar.isDigit19, Bool.and_eq_true, decide_eq_true_eq] at h19
+          simp only [Machine.isDigit, Bool.and_eq_true, decide_eq_true_eq]
+          refine ⟨?_, h19.2⟩
+          have := UInt8.le_iff_toNat_le.1 h19.1
+          apply UInt8.le_iff_toNat_le.2
+          change 49 ≤ d.toNat at this
+          change 48 ≤ d.toNat
+          omega
+      simp [isNumStart, hd]
 
 theorem T_head (v : JV) (hv : VOK v) : ∃ c tl, T ext v = c :: tl ∧ HeadOf v c := by
   cases v with
@@ -317,13 +367,33 @@ theorem T_head (v : JV) (hv : VOK v) : ∃ c tl, T ext v = c :: tl ∧ HeadOf v 
     cases n with
     | pos n => obtain ⟨c, tl, h, hc, _⟩ := natDigits_shape n; exact ⟨c, tl, by rw [T_pos ext hext, h], hc⟩
     | neg i =>
-      have hi : i < 0 := by have := hv.1; simp [shapeW, wfNumW] at this; exact this
+      have hi : i < 0 := by have := hv; simp [VOK, shapeW, wfNumW] at this; exact this
       exact ⟨_, _, T_neg ext hext i hi, rfl⟩
-    | float b => have := hv.2; simp [Spec.WF.noFloat] at this
-    | lit s => have := hv.1; simp [shapeW, wfNumW] at this
+    | float b =>
+      have hb : Spec.Program.finite64 b = true := by have := hv; simpa [VOK, shapeW, wfNumW] using this
+      obtain ⟨c, tl, h, hc⟩ := isNumber_head _ (hext.ryu64_number b hb)
+      exact ⟨c, tl, by rw [T_float ext b hb, h], hc⟩
+    | lit s => have := hv; simp [VOK, shapeW, wfNumW] at this
   | str s => obtain ⟨tl, h⟩ := T_str ext s; exact ⟨_, tl, h, rfl⟩
   | arr xs => exact ⟨_, _, T_arr ext xs, rfl⟩
   | obj kvs => obtain ⟨tl, h⟩ := T_obj ext kvs; exact ⟨_, tl, h, rfl⟩
+
+omit hext in
+/-- `-` or a digit is none of the bytes the entry points dispatch on -/
+theorem numStart_facts {c : UInt8} (h : isNumStart c = true) :
+    Machine.isWs c = false ∧ (c == 0x6e) = false ∧ (c == 0x74) = false ∧ (c == 0x66) = false ∧ (c == 0x5d) = false ∧
+    (c == 0x2c) = false ∧ (c == 0x22) = false ∧ (c == 0x5b) = false ∧ (c == 0x7b) = false := by
+  unfold isNumStart at h
+  simp only [Bool.or_eq_true, beq_iff_eq] at h
+  rcases h with rfl | h
+  · decide
+  · have hf := digit_facts h
+    refine ⟨isDigit_not_ws h, hf.2.1, hf.2.2.1, hf.2.2.2.1, hf.2.2.2.2.1, ?_, hf.2.2.2.2.2.2.2.1, hf.2.2.2.2.2.2.2.2.1, hf.2.2.2.2.2.2.2.2.2⟩
+    have := (isDigit_iff c).1 h
+    have h1 := UInt8.le_iff_toNat_le.1 this.1
+    change 48 ≤ c.toNat at h1
+    simp only [beq_eq_false_iff_ne, ne_eq]
+    intro e; subst e; simp at h1
 
 omit hext in
 /-- facts about the head byte, for the dispatch of each entry point -/
@@ -341,7 +411,7 @@ theorem headOf_facts {v : JV} {c : UInt8} (h : HeadOf v c) : Machine.isWs c = fa
       simp only [beq_eq_false_iff_ne, ne_eq]
       intro e; subst e; simp at h1
     | neg i => cases h; decide
-    | float b => cases h
+    | float b => have hf := numStart_facts h; exact ⟨hf.1, hf.2.2.2.2.1, hf.2.2.2.2.2.1⟩
     | lit s => cases h
   | str s => cases h; decide
   | arr xs => cases h; decide
@@ -353,8 +423,8 @@ theorem headOf_tests {v : JV} {c : UInt8} (h : HeadOf v c) :
     (c == 0x74) = (match v with | .bool true => true | _ => false) ∧
     (c == 0x66) = (match v with | .bool false => true | _ => false) ∧
     isNumStart c = (match v with | .num _ => true | _ => false) ∧
-    (c == 0x2d) = (match v with | .num (.neg _) => true | _ => false) ∧
-    Machine.isDigit c = (match v with | .num (.pos _) => true | _ => false) ∧
+    (c == 0x2d) = (match v with | .num (.neg _) => true | .num (.float _) => c == 0x2d | _ => false) ∧
+    Machine.isDigit c = (match v with | .num (.pos _) => true | .num (.float _) => Machine.isDigit c | _ => false) ∧
     (c == 0x5b) = (match v with | .arr _ => true | _ => false) ∧
     (c == 0x7b) = (match v with | .obj _ => true | _ => false) ∧
     (c == 0x22) = (match v with | .str _ => true | _ => false) := by
@@ -368,7 +438,10 @@ theorem headOf_tests {v : JV} {c : UInt8} (h : HeadOf v c) :
       simp only [HeadOf] at h
       simp [isNumStart, h, hf.1, hf.2.1, hf.2.2.1, hf.2.2.2.1, hf.2.2.2.2.2.2.2.1, hf.2.2.2.2.2.2.2.2.1, hf.2.2.2.2.2.2.2.2.2]
     | neg i => cases h; simp [isNumStart, Machine.isDigit]
-    | float b => cases h
+    | float b =>
+      have hf := numStart_facts h
+      simp only [HeadOf] at h
+      simp [h, hf.2.1, hf.2.2.1, hf.2.2.2.1, hf.2.2.2.2.2.2.1, hf.2.2.2.2.2.2.2.1, hf.2.2.2.2.2.2.2.2]
     | lit s => cases h
   | str s => cases h; simp [isNumStart, Machine.isDigit]
   | arr xs => cases h; simp [isNumStart, Machine.isDigit]
@@ -473,7 +546,10 @@ theorem agree_bool (v : JV) (hv : VOK v) : Agree1 (deBool env) (FromValue.fromVa
       cases hc
       simp only [show ((0x2d : UInt8) == 0x74) = false by decide, show ((0x2d : UInt8) == 0x66) = false by decide, Bool.false_eq_true, if_false]
       exact peekInvalidType_not_ok _ _ _ _ _ _
-    | float b => cases hc
+    | float b =>
+      have hf := numStart_facts hc
+      simp only [hf.2.2.1, hf.2.2.2.1, Bool.false_eq_true, if_false]
+      exact peekInvalidType_not_ok _ _ _ _ _ _
     | lit s => cases hc
 
 theorem agree_unit (v : JV) (hv : VOK v) : Agree1 (deUnit env) (FromValue.fromValue cfg' ext' .unit v) (T ext v) := by
@@ -502,7 +578,12 @@ theorem agree_unit (v : JV) (hv : VOK v) : Agree1 (deUnit env) (FromValue.fromVa
     simp only [ht.1, Bool.false_eq_true, if_false]
     exact peekInvalidType_not_ok _ _ _ _ _ _
 
-theorem agree_int (w : IntTy) (v : JV) (hv : VOK v) : Agree1 (deInt env w) (FromValue.fromValue cfg' ext' (.int w) v) (T ext v) := by
+/-- integer targets. `hfl`: a float is refused by the typed side too — which is the case when `ryu`'s text is read back
+    as the float (`Spec.WF.floatRT`) and the target is not a 128-bit one (`SJ.Proofs.TypedFloat.int_float_refused`; the
+    128-bit scanners take the integer prefix of `1.5` and leave the rejection to the caller) -/
+theorem agree_int (w : IntTy) (v : JV) (hv : VOK v)
+    (hfl : ∀ b, v = .num (.float b) → ∀ rest pos, SepOK rest → ∀ x r p, deInt env w (T ext v ++ rest) pos ≠ .ok x r p) :
+    Agree1 (deInt env w) (FromValue.fromValue cfg' ext' (.int w) v) (T ext v) := by
   intro rest pos hs
   obtain ⟨c, tl, hT, hc⟩ := T_head ext hext v hv
   have hw := (headOf_facts hc).1
@@ -569,7 +650,7 @@ theorem agree_int (w : IntTy) (v : JV) (hv : VOK v) : Agree1 (deInt env w) (From
         rw [hk]
         exact he
     | neg i =>
-      have hi : i < 0 := by have := hv.1; simpa [shapeW, wfNumW] using this
+      have hi : i < 0 := by have := hv; simpa [VOK, shapeW, wfNumW] using this
       simp only [FromValue.fromValue, FromValue.deInt, FromValue.numberInt, hap, Bool.false_eq_true, if_false, visitInt_eq]
       have hT' := T_neg ext hext i hi
       rw [hT']
@@ -633,7 +714,9 @@ theorem agree_int (w : IntTy) (v : JV) (hv : VOK v) : Agree1 (deInt env w) (From
       · simp only [hr, Bool.false_eq_true, if_false, FromValue.fail] at hk ⊢
         rw [hk]
         exact he
-    | float b => cases hc
+    | float b =>
+      simp only [FromValue.fromValue, FromValue.deInt, FromValue.numberInt, hap, Bool.false_eq_true, if_false, FromValue.fail]
+      exact hfl b rfl rest pos hs
     | lit s => cases hc
   | null | bool _ | str _ | arr _ | obj _ =>
     simp only [FromValue.fromValue, FromValue.deInt, FromValue.fail]
@@ -909,16 +992,15 @@ theorem depthOK_elem (t : Nat) (xs : List JV) (x : JV) (hx : x ∈ xs) (h : Dept
 omit hflt hap hext in
 theorem vok_elem : ∀ (xs : List JV) (x : JV), x ∈ xs → VOK (.arr xs) → VOK x := by
   intro xs x hx hv
-  have h1 : shapeWs xs = true := by simpa [shapeW] using hv.1
-  have h2 : Spec.WF.noFloats xs = true := by simpa [Spec.WF.noFloat] using hv.2
+  have h1 : shapeWs xs = true := by simpa [VOK, shapeW] using hv
   clear hv
   induction xs with
   | nil => simp at hx
   | cons y ys ih =>
-    simp only [shapeWs, Spec.WF.noFloats, Bool.and_eq_true] at h1 h2
+    simp only [shapeWs, Bool.and_eq_true] at h1
     rcases List.mem_cons.mp hx with rfl | hx
-    · exact ⟨h1.1, h2.1⟩
-    · exact ih hx h1.2 h2.2
+    · exact h1.1
+    · exact ih hx h1.2
 
 /-- `Vec<T>` -/
 theorem agree_seq (s : Schema) (f t : Nat) (v : JV) (hv : VOK v) (hd : DepthOK env t v)
@@ -1223,20 +1305,32 @@ theorem agreeFrag_mem : ∀ (ss : List Schema) (s : Schema), s ∈ ss → agreeF
     · exact hf.1
     · exact agreeFrag_mem r s h hf.2
 
-/-- **the text leg on printed values**: for every schema of the fragment, every float-free value representable without
-    `arbitrary_precision` and within the depth budget, the typed deserializer on the text `to_string` writes for the
-    value (followed by a separator or nothing) returns exactly what `from_value` returns — and fails when it fails -/
+omit hext in
+theorem noFloat_elem : ∀ (xs : List JV) (x : JV), x ∈ xs → Spec.WF.noFloats xs = true → Spec.WF.noFloat x = true
+  | [], _, h, _ => by simp at h
+  | y :: ys, x, h, hf => by
+    simp only [Spec.WF.noFloats, Bool.and_eq_true] at hf
+    rcases List.mem_cons.mp h with rfl | h
+    · exact hf.1
+    · exact noFloat_elem ys x h hf.2
+
+/-- **the text leg on printed values** (the first stage; superseded by `agree_gen` in `TypedAgreeAll`): for every schema of
+    the fragment, every float-free value representable without `arbitrary_precision` and within the depth budget, the
+    typed deserializer on the text `to_string` writes for the value (followed by a separator or nothing) returns exactly
+    what `from_value` returns — and fails when it fails -/
 theorem agree_deTyped {env : Env} (hflt : env.flt = false) (cfg' : FromValue.Cfg) (hap : cfg'.ap = false) (ext' : FromValue.Ext) :
-    ∀ (f : Nat) (s : Schema), Schema.size s ≤ f → agreeFrag s = true → ∀ (t : Nat) (v : JV), VOK v → DepthOK env t v →
-      Agree1 (deTyped env f t s) (FromValue.fromValue cfg' ext' s v) (T ext v) := by
+    ∀ (f : Nat) (s : Schema), Schema.size s ≤ f → agreeFrag s = true → ∀ (t : Nat) (v : JV), VOK v → Spec.WF.noFloat v = true →
+      DepthOK env t v → Agree1 (deTyped env f t s) (FromValue.fromValue cfg' ext' s v) (T ext v) := by
   intro f
   induction f with
   | zero => intro s hs; have := size_pos s; omega
   | succ f ih =>
-    intro s hs hfr t v hv hd
+    intro s hs hfr t v hv hnf hd
     cases s with
     | bool => rw [deTyped_bool]; exact agree_bool ext hext hflt cfg' hap ext' v hv
-    | int w => rw [deTyped_int]; exact agree_int ext hext hflt cfg' hap ext' w v hv
+    | int w =>
+      rw [deTyped_int]
+      exact agree_int ext hext hflt cfg' hap ext' w v hv (fun b hb => by subst hb; simp [Spec.WF.noFloat] at hnf)
     | unit => rw [deTyped_unit]; exact agree_unit ext hext hflt cfg' hap ext' v hv
     | unitStruct =>
       rw [deTyped_unitStruct]
@@ -1244,22 +1338,22 @@ theorem agree_deTyped {env : Env} (hflt : env.flt = false) (cfg' : FromValue.Cfg
       simpa [FromValue.fromValue] using this
     | newtype s' =>
       rw [deTyped_newtype]
-      have := ih s' (by simp only [Schema.size] at hs; omega) (by simpa [agreeFrag] using hfr) t v hv hd
+      have := ih s' (by simp only [Schema.size] at hs; omega) (by simpa [agreeFrag] using hfr) t v hv hnf hd
       simpa [FromValue.fromValue] using this
     | option s' =>
       exact agree_option ext hflt cfg' hap ext' s' f t v hv
-        (fun _ => ih s' (by simp only [Schema.size] at hs; omega) (by simpa [agreeFrag] using hfr) t v hv hd) (T_head ext hext v hv)
+        (fun _ => ih s' (by simp only [Schema.size] at hs; omega) (by simpa [agreeFrag] using hfr) t v hv hnf hd) (T_head ext hext v hv)
     | seq s' =>
       refine agree_seq ext hext hflt cfg' hap ext' s' f t v hv hd fun xs hxs x hx => ?_
       subst hxs
       exact ih s' (by simp only [Schema.size] at hs; omega) (by simpa [agreeFrag] using hfr) (t + 1) x (vok_elem xs x hx hv)
-        (depthOK_elem t xs x hx hd)
+        (noFloat_elem xs x hx (by simpa [Spec.WF.noFloat] using hnf)) (depthOK_elem t xs x hx hd)
     | tuple ss =>
       refine agree_tuple ext hext hflt cfg' hap ext' ss f t v hv hd fun xs hxs => tupAgree_of_all ext _ _ ss xs fun s' hs' x hx => ?_
       subst hxs
       have hsz := size_mem_list ss s' hs'
       exact ih s' (by simp only [Schema.size] at hs; omega) (agreeFrag_mem ss s' hs' (by simpa [agreeFrag] using hfr)) (t + 1) x
-        (vok_elem xs x hx hv) (depthOK_elem t xs x hx hd)
+        (vok_elem xs x hx hv) (noFloat_elem xs x hx (by simpa [Spec.WF.noFloat] using hnf)) (depthOK_elem t xs x hx hd)
     | _ => simp [agreeFrag] at hfr
 
 end SJ.Proofs.Typed
